@@ -162,7 +162,7 @@ impl<'r> Gen<'r> {
             }
             2 => {
                 let n = self.rng.pick(ADVERSARIAL_NAMES);
-                if scope.iter().any(|v| v.name == n) && self.rng.bool() { format!("{}{}", n, self.counter) } else { n.to_string() }
+                if scope.iter().any(|v| v.name == n) && self.rng.bool() { format!("{}v{}", n, self.counter) } else { n.to_string() }
             }
             _ => {
                 if self.f.shadowing && self.rng.chance(1, 4) {
